@@ -94,7 +94,7 @@ def gen_logs(rnd):
 
 def render_cfg(cfg, scratch, libpath=None):
     mods = {"iauth": "iauth", "xquery": "iauth_xquery", "class": "iauth_class"}[cfg["modules"]]
-    out = ['core {', ' library_path ( "%s" )' % (libpath or H.MODS), ' modules ( %s )' % mods, '}']
+    out = ['core {', ' library_path ( "%s" )' % (libpath or "lib"), ' modules ( %s )' % mods, '}']
     out.append('iauth {\n timeout %s\n}' % cfg["timeout"] if cfg.get("timeout") else 'iauth {\n}')
     if cfg["modules"] != "iauth":
         out.append("iauth_xquery {")
